@@ -27,6 +27,11 @@ def run(tier):
     trace = os.path.join(wd, "trace.ndjson")
     segs, ops, large, p2p = (400, 80, 12, 6) if big else (50, 60, 2, 2)
     vlib.run_harness(["c10", "drive", "out=" + trace, "segments=%d" % segs, "ops=%d" % ops, "large=%d" % large, "p2pnode=%d" % p2p])
+    # real threads: remove_node racing a computation in flight (the removed identity must read as unknown afterwards)
+    rtrace = os.path.join(wd, "race.ndjson")
+    vlib.run_harness(["c10", "race", "out=" + rtrace, "segments=%d" % (60 if big else 8)])
+    with open(trace, "a") as f, open(rtrace) as g:
+        f.write(g.read())
     res, tr = vlib.validate_trace(TRACE_MOD, TRACE_MOD + ".cfg", trace, os.path.join(wd, "out.json"), timeout=3000)
     if res["consumed"] != res["total"]:
         raise vlib.ToolError("trace not fully consumed")
@@ -58,7 +63,9 @@ def run(tier):
         rule="seeded random histories (update_local_trust, TrustProvider::update_trust, update_node_stats all 9 kinds with "
              "amounts up to 2^40, add/remove pre-trusted, TrustProvider::remove_node, P2PNode::report_peer_*) over 1..600 "
              "identities on twin real engines; a case = one published score vector (content) or one per-peer query "
-             "(segment, engine, node, value); distinct by content; every vector judged by TLC for domain, range, sum, and "
+             "(segment, engine, node, value); distinct by content; race segments: TrustProvider::remove_node called while "
+             "compute_global_trust runs on another thread (250-500 identities), logged in the order the result shows; every vector "
+             "judged by TLC for domain, range, sum, and "
              "against the twin/previous snapshot when the abstract states are related (equal, +1 success, +1 failure, severe vs plain)",
         trusted=["ppb projection of f64 scores (round, clamp) and non-finite flag in the driver",
                  "paused tokio clock as the exact detector of the 2 s timeout fallback",
